@@ -4,7 +4,7 @@ CONSTANTS Thresholds,   \* set of <<tp, tq>>
           ExtraKeys,    \* keys = W + ExtraKeys
           MaxBuckets    \* streams of up to MaxBuckets * W additions
 ThQuick == {<<1, 2>>, <<1, 3>>, <<3, 10>>, <<1, 4>>}
-ThThorough == {<<1, 2>>, <<1, 3>>, <<3, 10>>, <<13, 50>>, <<1, 4>>, <<1, 5>>}
+ThThorough == {<<1, 2>>, <<1, 3>>, <<3, 10>>, <<13, 50>>, <<1, 4>>}
 VARIABLES st, last
 vars == <<st, last>>
 NKeys(t) == W(t[1], t[2]) + ExtraKeys
